@@ -395,8 +395,17 @@ func bloomReload(c *Ctx, f *gostatix.BloomFilter, cfg bloomCfg) *gostatix.BloomF
 	}
 	var lerr error
 	how := "Import"
+	useStream := !cfg.redis && c.rng.Intn(2) == 0
+	if useStream && c.rng.Intn(3) == 0 {
+		// the receiving struct was created Redis-backed: ReadFrom makes it an in-memory filter
+		if g2, e2 := gostatix.NewRedisBloomFilterWithParameters(60, 0.1); e2 == nil && g2 != nil {
+			g2.Insert([]byte("previous tenant"))
+			g = g2
+			c.branch("readfrom-into-redis-created-struct")
+		}
+	}
 	res := safely(func() {
-		if !cfg.redis && c.rng.Intn(2) == 0 {
+		if useStream {
 			how = "WriteTo/ReadFrom"
 			var buf bytes.Buffer
 			if _, lerr = f.WriteTo(&buf); lerr == nil {
